@@ -33,6 +33,10 @@ fn kc(k: KeyCode) -> u16 {
     k as u16
 }
 
+pub fn opcode_raw_pub(op: &OpCode) -> u16 {
+    opcode_raw(op)
+}
+
 fn opcode_raw(op: &OpCode) -> u16 {
     // OpCode's field is private; its derived Debug prints `OpCode(<u16>)`.
     let s = format!("{op:?}");
